@@ -149,6 +149,28 @@ Theorem C01_roundtrip_user_desc : forall period ops, history_ok ud_desc (new_mux
 Proof. exact roundtrip_history_ud. Qed.
 Print Assumptions C01_roundtrip_user_desc.
 
+(* what the PES datum listed by [expect] for a successful WriteData is, in terms of the call's arguments: PID, exactly
+   the payload, the header written (stream id filled in) with the derived fields a parser computes, FirstPacket = header
+   and adaptation field of the unit's first payload packet, which carries the caller's adaptation field (at most with
+   stuffing added) whenever that field leaves room for the PES header *)
+Theorem C01_expected_pes : forall s d s' p ctx h0 data,
+  ms_inv s -> data_in_domain s d ctx h0 data -> write_data s d = (s', p) -> pa_res p = Ok tt ->
+  let x := MuxerData_PID d in
+  let h := filled_header h0 (ec_es ctx) in
+  exists p1 rest,
+    filter (unit_filter x) (pa_pkts p) = p1 :: rest /\
+    data_out s d (pa_pkts p) = Some (pes_datum x (obs_pkt p1) h data) /\
+    DemuxerData_PID (pes_datum x (obs_pkt p1) h data) = x /\
+    DemuxerData_PES (pes_datum x (obs_pkt p1) h data) =
+      Some {| PESData_Data := data; PESData_Header := Some (observed_header h (Z.of_nat (length data))) |} /\
+    DemuxerData_FirstPacket (pes_datum x (obs_pkt p1) h data) = Some (first_packet_of (obs_pkt p1)) /\
+    Packet_AdaptationField (first_packet_of (obs_pkt p1)) = option_map observed_af (Packet_AdaptationField p1) /\
+    ((C_MpegTsPacketSize - (1 + C_mpegTsPacketHeaderSize + af_size_opt (MuxerData_AdaptationField d)) <?
+        C_pesHeaderLength + calcPESOptionalHeaderLength (PESHeader_OptionalHeader h)) = false ->
+     first_ok (MuxerData_AdaptationField d) p1).
+Proof. exact data_out_spec. Qed.
+Print Assumptions C01_expected_pes.
+
 (* the same read per PID, as the property is worded: every result is Ok, and for every PID other than those of the
    tables the data delivered on it are exactly the PES written on it -- one per successful WriteData, in call order
    (written_on), none lost, duplicated or reordered *)
